@@ -75,12 +75,9 @@ class CdsShortTimestamp(CcsdsTimeProvider):
 
     def _calculate_unix_seconds(self):
         unix_days = convert_ccsds_days_to_unix_days(self._ccsds_days)
-        self._unix_seconds = unix_days * SECONDS_PER_DAY
-        seconds_of_day = self._ms_of_day / 1000.0
-        if self._unix_seconds < 0:
-            self._unix_seconds -= seconds_of_day
-        else:
-            self._unix_seconds += seconds_of_day
+        # The time of day always counts forward from the start of the day, also for days
+        # before the Unix epoch. Sum the milliseconds as integers and divide once.
+        self._unix_seconds = (unix_days * MS_PER_DAY + self._ms_of_day) / 1000.0
 
     def _calculate_date_time(self):
         if self._unix_seconds < 0:
